@@ -194,7 +194,8 @@ pub fn uint(ftx: &FunctionContext, This(this): This<Value>) -> Result<Value> {
             .map(Value::UInt)
             .map_err(|e| ftx.error(format!("string parse error: {e}")))?,
         Value::Float(v) => {
-            if v > u64::MAX as f64 || v < u64::MIN as f64 {
+            // `u64::MAX as f64` rounds up to 2^64, which is already out of range.
+            if v.is_nan() || v >= u64::MAX as f64 || v < u64::MIN as f64 {
                 return Err(ftx.error("unsigned integer overflow"));
             }
             Value::UInt(v as u64)
@@ -216,7 +217,8 @@ pub fn int(ftx: &FunctionContext, This(this): This<Value>) -> Result<Value> {
             .map(Value::Int)
             .map_err(|e| ftx.error(format!("string parse error: {e}")))?,
         Value::Float(v) => {
-            if v > i64::MAX as f64 || v < i64::MIN as f64 {
+            // `i64::MAX as f64` rounds up to 2^63, which is already out of range.
+            if v.is_nan() || v >= i64::MAX as f64 || v < i64::MIN as f64 {
                 return Err(ftx.error("integer overflow"));
             }
             Value::Int(v as i64)
